@@ -22,7 +22,11 @@ document parser hands exactly these lines, as one test with the same command, to
 
 Parameters: `isOther` = `char::is_other()` (unicode-mode statements assume `AsciiContract`, as in
 C11); `P : Grammar.Params` with `StdParams P`: `\s` is Unicode white space and the `escaped`
-constructor is `EscapedRule::make` (`stdParams` is such a `P` for any glob/regex constructors).
+constructor is `apply_escaped_filter_bytes` behind the ` (no-eol)` strip that `Grammar.makeRule` does
+itself, i.e. `EscapedRule::make` (`stdParams` is such a `P` for any glob/regex constructors).
+The model is the code after fix c1bf05c: the escaper itself writes `\x20(no-eol)` for content
+ending in ` (no-eol)` (`Esc.guardTailingNoEol`); the generator's own rewrite remains for the
+first-character escape of printable lines (`$ foo (no-eol)`).
 
 **`update`: the full-strength statement is FALSE today** (open finding
 `C09:update-retained-quantified-expectations`):
